@@ -441,10 +441,16 @@ fn fuzz_campaigns(id: &str, seed: u64, merged: &mut Report, infra: &mut Vec<Stri
             .arg(format!("-runs={runs}"))
             .arg(format!("-seed={seed}"))
             .arg("-len_control=0")
+            // Comparison operands guide the mutations: constants the code compares against
+            // (sizes, counts, tags) get synthesised instead of having to be guessed.
+            .arg("-use_value_profile=1")
             .arg(format!("-max_len={max_len}"))
             .arg(format!("-jobs={jobs}"))
             .arg(format!("-workers={jobs}"))
             .arg("-rss_limit_mb=4096")
+            // A wall-clock cap per campaign on top of the run count: reaching it ends the campaign
+            // normally (what was explored is what the evidence reports), it is never a failure.
+            .arg("-max_total_time=420")
             // Leaks of the code under test are C10's subject (live-chunk counters); the harness itself
             // leaks a few static buffers on purpose.
             .arg("-detect_leaks=0")
@@ -461,12 +467,21 @@ fn fuzz_campaigns(id: &str, seed: u64, merged: &mut Report, infra: &mut Vec<Stri
             .status();
         let secs = t0.elapsed().as_secs_f64();
         let corpus_size = std::fs::read_dir(&corpus).map(|d| d.count()).unwrap_or(0);
-        merged.sub_add(&format!("fuzz:{target}"), "runs", runs * jobs);
+        // Executions actually performed, from the workers' logs ("Done N runs", or the last status line).
+        let mut executed = 0u64;
+        for j in 0..jobs {
+            let Ok(text) = std::fs::read_to_string(work.join(format!("fuzz-{j}.log"))) else { continue };
+            let done = text.lines().rev().find_map(|l| l.strip_prefix("Done ").and_then(|r| r.split_whitespace().next()).and_then(|n| n.parse::<u64>().ok()));
+            let last_status = text.lines().rev().find_map(|l| l.strip_prefix('#').and_then(|r| r.split_whitespace().next()).and_then(|n| n.parse::<u64>().ok()));
+            executed += done.or(last_status).unwrap_or(0);
+        }
+        merged.sub_add(&format!("fuzz:{target}"), "runs", executed);
+        merged.sub_set(&format!("fuzz:{target}"), "runs_requested", json!(runs * jobs));
         merged.sub_set(&format!("fuzz:{target}"), "jobs", json!(jobs));
         merged.sub_set(&format!("fuzz:{target}"), "corpus_files_at_end", json!(corpus_size));
         merged.sub_set(&format!("fuzz:{target}"), "wall_s", json!(secs));
         merged.sub_set(&format!("fuzz:{target}"), "sanitizer", json!("address"));
-        merged.evaluations += runs * jobs;
+        merged.evaluations += executed;
         // Any artifact?  Confirm it with the same oracle in the ordinary build.
         let mut crashes: Vec<std::path::PathBuf> = std::fs::read_dir(&artifacts).map(|d| d.filter_map(|e| e.ok().map(|e| e.path())).collect()).unwrap_or_default();
         crashes.sort();
